@@ -117,6 +117,9 @@ func runCheck(spec *Spec, o *runOpts) int {
 		u := res.unit
 		hs := findHarness(u, res.Func)
 		for _, v := range res.Stats.Violations {
+			if !spec.ownsAssert(v.ID) {
+				continue
+			}
 			rp := writeReplay(spec, u, v, res.Params)
 			v.ReplayFile = rp
 			if !o.noNative && hs.Native != "none" {
@@ -160,6 +163,18 @@ func runCheck(spec *Spec, o *runOpts) int {
 		fmt.Printf("== %s: INCONCLUSIVE\n", spec.Property)
 	}
 	return exit
+}
+
+func (s *Spec) ownsAssert(id string) bool {
+	if len(s.AssertPrefixes) == 0 {
+		return true
+	}
+	for _, p := range s.AssertPrefixes {
+		if strings.HasPrefix(id, p) {
+			return true
+		}
+	}
+	return false
 }
 
 func lastLines(s string, n int) string {
